@@ -6802,6 +6802,19 @@ impl<SP: SignerProvider> ChannelContext<SP> {
 			}
 		}
 
+		// HTLC failures which became irrevocable while a `ChannelMonitorUpdate` was in progress are
+		// held until that update completes. As the HTLCs were removed from all unrevoked
+		// commitment transactions, the `ChannelMonitor` no longer tracks them, so we're the only
+		// one who can still fail them backwards.
+		for (source, payment_hash, _) in self.monitor_pending_failures.drain(..) {
+			dropped_outbound_htlcs.push((
+				source,
+				payment_hash,
+				counterparty_node_id,
+				self.channel_id,
+			));
+		}
+
 		// Once we're closed, the `ChannelMonitor` is responsible for resolving any remaining
 		// HTLCs. However, in the specific case of us pushing new HTLC(s) to the counterparty in
 		// the latest commitment transaction that we haven't actually sent due to a block
